@@ -403,5 +403,51 @@ func c15(r *mon.Run) {
 			t.Nontrivial("sel:" + gen.Spell(T1))
 			t.Count("law 2 (selection): sides agree")
 		}}
-	r.Exec(law1, law2, shaped, dead, behind)
+	// law 1 over member names that are awkward to spell (dots next to the nested path they would mean, quotes,
+	// backslashes, syntax look-alikes), with and without white space between the tokens: however a step is
+	// recognised (parser, or a short cut for "plain paths"), composing steps and piping them agree
+	akPipe := mon.Workload{Name: "pipes-over-awkward-keys", N: len(awkwardKeys) * 6 * 2,
+		Do: func(i int, t *mon.Tally) {
+			k := awkwardKeys[i/12]
+			obj := awkwardDoc(k)
+			doc := map[string]interface{}{"metadata": map[string]interface{}{"labels": obj}, "labels": obj, "o": map[string]interface{}{k: obj}}
+			K := gen.StQField(k)
+			var A, B *gen.Expr
+			switch i / 2 % 6 {
+			case 0:
+				A, B = gen.Field("metadata"), gen.Chain(gen.Field("labels"), K)
+			case 1:
+				A, B = gen.Chain(gen.Field("metadata"), gen.StField("labels")), gen.QField(k)
+			case 2:
+				A, B = gen.Current(), gen.Chain(gen.Field("o"), K, K)
+			case 3:
+				A, B = gen.Chain(gen.Field("o"), K), gen.QField(k)
+			case 4:
+				A, B = gen.Field("o"), gen.Chain(gen.QField(k), K)
+			default:
+				A, B = gen.Chain(gen.Field("labels"), K), gen.Func("type", gen.Current())
+			}
+			spell := gen.Spell
+			if i%2 == 1 {
+				spell = gen.SpellTight
+			}
+			t.Eval()
+			ow := via(i/2, spell(gen.Pipe(A, B)), mon.DeepCopy(doc))
+			oa := apiSearch(spell(A), mon.DeepCopy(doc))
+			ob := oa
+			if !oa.Panicked && oa.Err == nil {
+				ob = apiSearch(spell(B), oa.V)
+			}
+			oc := oa
+			if !oa.Panicked && oa.Err == nil {
+				oc = apiCompiledSearch(spell(B), oa.V)
+			}
+			if ow.Panicked || ob.Panicked || oc.Panicked || !sameOutcome(ow, ob) || !sameOutcome(ow, oc) {
+				r.Violate(&mon.Violation{Workload: "pipes-over-awkward-keys", Index: i, API: "Search", Expr: spell(gen.Pipe(A, B)), Doc: doc,
+					Expected: "Search(B, Search(A, d)) = " + ob.String() + " (one-shot) / " + oc.String() + " (compiled)   [A = " + spell(A) + " ; B = " + spell(B) + "]", Observed: "Search('A | B', d) = " + ow.String(), Class: "pipe law (awkward member names)"})
+				return
+			}
+			t.Nontrivial("akp:" + spell(gen.Pipe(A, B)))
+		}}
+	r.Exec(law1, law2, shaped, dead, behind, akPipe)
 }
